@@ -814,6 +814,16 @@ class RTCSctpTransport(AsyncIOEventEmitter):
     def _flight_size_decrease(self, chunk: DataChunk) -> None:
         self._flight_size = max(0, self._flight_size - chunk._book_size)
 
+    def _flight_size_forget(self, chunk: DataChunk, struck: DataChunk) -> None:
+        """
+        Stop counting a fragment which is being abandoned along with the
+        `struck` chunk as in flight (the caller accounts for `struck` itself).
+        """
+        if chunk is not struck and not (
+            chunk._abandoned or chunk._acked or chunk._retransmit
+        ):
+            self._flight_size_decrease(chunk)
+
     def _flight_size_increase(self, chunk: DataChunk) -> None:
         self._flight_size += chunk._book_size
 
@@ -902,12 +912,14 @@ class RTCSctpTransport(AsyncIOEventEmitter):
         chunk_pos = self._sent_queue.index(chunk)
         for pos in range(chunk_pos, -1, -1):
             ochunk = self._sent_queue[pos]
+            self._flight_size_forget(ochunk, chunk)
             ochunk._abandoned = True
             ochunk._retransmit = False
             if ochunk.flags & SCTP_DATA_FIRST_FRAG:
                 break
         for pos in range(chunk_pos, len(self._sent_queue)):
             ochunk = self._sent_queue[pos]
+            self._flight_size_forget(ochunk, chunk)
             ochunk._abandoned = True
             ochunk._retransmit = False
             if ochunk.flags & SCTP_DATA_LAST_FRAG:
